@@ -191,6 +191,12 @@ def scenarios():
     for kind, (decl, use) in COMPUTED.items():
         out[f"{kind}/computed-pin/use-in-loop"] = f"mon = SerialMonitor(9600)\n{decl}\nwhile True:\n    {use}\n    sleep(5)\n"
         out[f"{kind}/computed-pin/use-in-setup"] = f"mon = SerialMonitor(9600)\n{decl}\n{use}\nwhile True:\n    sleep(5)\n"
+    # pin 0 is a pin like any other (a falsy constant must not be taken for "no pin")
+    ZERO = {"Led": ("d = Led(0)", "d.on()"), "Led-keyword": ("d = Led(pin=0)", "d.toggle()"), "Led-folded": ("d = Led(1 - 1)", "d.on()"), "Buzzer": ("d = Buzzer(0)", "d.play_tone(440)"),
+            "Button": ("d = Button(0)", "mon.write(d.is_pressed())"), "Servo": ("d = Servo(0)", "d.write(90)"), "RGBLed": ("d = RGBLed(0, 1, 2)", "d.set_color(1, 2, 3)"), "DCMotor": ("d = DCMotor(0, 1, 3)", "d.set_speed(0.5)")}
+    for kind, (decl, use) in ZERO.items():
+        out[f"{kind}/pin-zero/use-in-loop"] = f"mon = SerialMonitor(9600)\n{decl}\nwhile True:\n    {use}\n    sleep(5)\n"
+        out[f"{kind}/pin-zero/use-in-setup-and-helper"] = f"mon = SerialMonitor(9600)\n{decl}\ndef act():\n    {use}\n{use}\nwhile True:\n    act()\n    sleep(5)\n"
     out["Led+Button/same-script"] = "mon = SerialMonitor(9600)\nl = Led(13)\nb = Button(4)\nwhile True:\n    if b.is_pressed():\n        l.on()\n    else:\n        l.off()\n    sleep(5)\n"
     out["Led+Potentiometer+Servo"] = ("mon = SerialMonitor(9600)\nl = Led(13)\np = Potentiometer('A1')\ns = Servo(6)\nwhile True:\n    v = p.read()\n    s.write(v / 6)\n"
                                       "    l.set_brightness(v / 4)\n    mon.write(v)\n    sleep(5)\n")
